@@ -401,6 +401,16 @@ func gsParams(c *vCase) GossipSubParams {
 	p := vFastParams()
 	if c.Chance(0.08) {
 		p.D, p.Dlo, p.Dhi, p.Dout, p.Dscore = 0, 0, 0, 0, 0
+	} else if c.Chance(0.35) {
+		// larger degrees: an outbound quota of 2..3 and over-subscription need them
+		p.Dlo = c.Range(4, 6)
+		p.D = p.Dlo + c.Range(0, 3)
+		p.Dhi = p.D + c.Range(0, 3)
+		p.Dout = 0
+		for p.Dout+1 < p.Dlo && p.Dout+1 < p.D/2 && c.Chance(0.85) {
+			p.Dout++
+		}
+		p.Dscore = c.Range(0, max(0, p.D-p.Dout))
 	} else {
 		p.Dlo = c.Range(1, 4)
 		p.D = max(2, p.Dlo+c.Range(0, 2))
